@@ -199,31 +199,43 @@ class Acc:
         self.res["disagreements"].append({"stream": stream, "input": inp, "impl": impl, "model": model, "what": what})
 
 
+def make_reqs(tag, info, default):
+    """model requests of one case, from its plain-JSON abstract input"""
+    if tag == "A":
+        return [(1400, [default, opt(info["tt"]), [[opt(o), c] for o, c in info["pdivs"]]])]
+    if tag == "B":
+        return [(1403 if info["writer"] == "legacy" else 1402, [info["force"], info["cs"]])]
+    if tag == "C":
+        return [(1405, [default, [[c, opt(l)] for c, l in info["styles"]], info["ps"]])]
+    if tag == "D":
+        return [(1407, info["cs"])]
+    if tag == "E":
+        return [(1409, [opt(info["pick"]), info["cs"]])]
+    return []
+
+
 def stream_jobs(ctx, default):
     """-> list of (tag, job, model requests, info)"""
     rng = ctx.rng
     out = []
     for _ in range(ctx.n(150, 3000)):
         tt, divs, doc = gen_dfxp_doc(rng)
-        wdivs = [[opt(o), [[s, t] for s, e, t in cues]] for o, cues in divs]
-        out.append(("A", {"op": "dfxp_read", "doc": doc}, [(1400, [default, opt(tt), wdivs])],
-                    {"tt": tt, "divs": wdivs, "raw": divs}))
+        pdivs = [[o, [[s, t] for s, e, t in cues]] for o, cues in divs]
+        out.append(("A", {"op": "dfxp_read", "doc": doc}, None, {"tt": tt, "pdivs": pdivs}))
     for _ in range(ctx.n(150, 3000)):
         cs, shape = gen_capset(rng)
         writer = rng.choice(["main", "main", "single", "legacy"])
         langs = [l for l, _ in cs]
         force = rng.choice([None, "", rng.choice(langs), rng.choice(langs), "xx"])
         st = start_text(cs)
-        code = 1403 if writer == "legacy" else 1402
-        out.append(("B", {"op": "dfxp_write", "writer": writer, "force": force, "cs": cs},
-                    [(code, [force or "", st])], {"cs": st, "force": force or "", "writer": writer, "shape": shape}))
+        out.append(("B", {"op": "dfxp_write", "writer": writer, "force": force, "cs": cs}, None,
+                    {"cs": st, "force": force or "", "writer": writer, "shape": shape}))
     for _ in range(ctx.n(200, 4000)):
         styles, ps, doc = gen_sami_doc(rng)
-        wst = [[c, opt(l)] for c, l in styles]
-        out.append(("C", {"op": "sami_read", "doc": doc}, [(1405, [default, wst, ps])], {"styles": styles, "ps": ps}))
+        out.append(("C", {"op": "sami_read", "doc": doc}, None, {"styles": styles, "ps": ps}))
     for _ in range(ctx.n(200, 4000)):
         cs, shape = gen_capset(rng)
-        out.append(("D", {"op": "sami_write", "cs": cs}, [(1407, cs)], {"cs": cs, "shape": shape}))
+        out.append(("D", {"op": "sami_write", "cs": cs}, None, {"cs": cs, "shape": shape}))
     for _ in range(ctx.n(60, 1000)):
         cs, shape = gen_capset(rng)
         langs = [l for l, _ in cs]
@@ -232,17 +244,17 @@ def stream_jobs(ctx, default):
         if pick != "absent-arg":
             j["lang"] = pick
         mp = None if pick in ("absent-arg", None) else pick
-        out.append(("E", j, [(1409, [opt(mp), start_text(cs)])], {"cs": start_text(cs), "pick": mp}))
+        out.append(("E", j, None, {"cs": start_text(cs), "pick": mp}))
     for _ in range(ctx.n(20, 300)):
         cs, shape = gen_capset(rng)
-        out.append(("E2", {"op": "srt_write", "cs": cs}, [], {"cs": start_text(cs)}))
+        out.append(("E2", {"op": "srt_write", "cs": cs}, None, {"cs": start_text(cs)}))
     docs = {"srt": "1\n00:00:01,000 --> 00:00:02,000\nx\n", "webvtt": "WEBVTT\n\n00:01.000 --> 00:02.000\nx\n",
             "scc": "Scenarist_SCC V1.0\n\n00:00:01:00\t94ae 94ae 9420 9420 9470 9470 6162 942c 942c 942f 942f\n\n"
                    "00:00:03:00\t942c 942c\n\n", "microdvd": "{0}{0}25.0\n{25}{50}x\n"}
     for fmt, doc in docs.items():
         for lang in (None, "fr", "zh-Hans", "en"):
-            out.append(("E3", {"op": "reader_lang", "fmt": fmt, "doc": doc, "lang": lang}, [], {"fmt": fmt, "lang": lang}))
-    return out
+            out.append(("E3", {"op": "reader_lang", "fmt": fmt, "doc": doc, "lang": lang}, None, {"fmt": fmt, "lang": lang}))
+    return [(tag, job, make_reqs(tag, info, default), info) for tag, job, _, info in out]
 
 
 def judge(acc, cfg, items, obs, models):
@@ -255,14 +267,14 @@ def judge(acc, cfg, items, obs, models):
         k += len(reqs)
         acc.res["evaluations"] += 1
         acc.count("stream_" + tag)
-        inp = {"config": cfg, "job": job}
+        inp = {"config": cfg, "job": job, "tag": tag, "info": info}
         if "err" in o:
             acc.viol("raises", "%s raised %s: %s" % (job["op"], o["err"], o.get("msg", "")), inp, stream=tag)
             continue
         if tag == "A":
             got = as_capset(o["langs"])
             pending.append((tag, inp, info, got, m[0]))
-            oracle_reqs.append((1401, [default, opt(info["tt"]), info["divs"], got]))
+            oracle_reqs.append((1401, [default, opt(info["tt"]), [[opt(o), c] for o, c in info["pdivs"]], got]))
         elif tag == "B":
             got = [[l, cues] for l, cues in o["divs"]]
             pending.append((tag, inp, info, (o["tt"], got, o.get("reread"), o.get("reread_err")), m[0]))
@@ -306,14 +318,14 @@ def judge(acc, cfg, items, obs, models):
             if not dom:
                 acc.count("A_duplicate_language_outside_domain")
             elif not ok:
-                acc.viol("dfxp-div-language", "DFXPReader: languages / cue lists %r for tt=%r divs=%r" % (got, info["tt"], info["raw"]), inp, stream=tag)
+                acc.viol("dfxp-div-language", "DFXPReader: languages / cue lists %r for tt=%r divs=%r" % (got, info["tt"], info["pdivs"]), inp, stream=tag)
                 continue
             if got != m:
                 acc.dis(tag, inp, got, m)
             elif dom:
                 acc.res["nontrivial"].add(("A", json.dumps(inp["job"])))
-                acc.count("A_fallback_to_tt", int(info["tt"] is not None and any(d[0] is None for d in info["divs"])))
-                acc.count("A_fallback_to_default", int(info["tt"] is None and any(d[0] is None for d in info["divs"])))
+                acc.count("A_fallback_to_tt", int(info["tt"] is not None and any(d[0] is None for d in info["pdivs"])))
+                acc.count("A_fallback_to_default", int(info["tt"] is None and any(d[0] is None for d in info["pdivs"])))
         elif tag == "B":
             ok, (dom2, ok2) = oks[j], oks[j + 1]
             j += 2
@@ -418,31 +430,11 @@ def run(ctx):
 
 def replay(ctx, rec):
     inp = rec["input"]
-    cfg = inp["config"]
-    o = run_worker([inp["job"]], cfg["env"], cfg["hashseed"], ctx.repo)[0]
-    # re-judge this single job
+    cfg, job, tag, info = inp["config"], inp["job"], inp["tag"], inp["info"]
+    o = run_worker([job], cfg["env"], cfg["hashseed"], ctx.repo)[0]
+    reqs = make_reqs(tag, info, cfg["default"])
+    models = oracle_batch(reqs) if reqs else []
     acc = Acc()
-    items = [it for it in stream_jobs(ctx, cfg["default"])][:0]
-    return ("err" in o) or _rejudge(ctx, cfg, inp["job"], o), str(o)[:600]
-
-
-def _rejudge(ctx, cfg, job, o):
-    """evaluate the oracle for one observed job (used by replay)"""
-    default = cfg["default"]
-    if job["op"] == "sami_write":
-        body = [[s, [[c, t] for c, t in ps]] for s, ps in o["body"]]
-        ok = oracle_batch([(1408, [start_text(job["cs"]), body])])[0]
-        tagged = [[c, [s * 1000, t]] for s, ps in body for c, t in ps if t != "&nbsp;"]
-        ok2 = "reread" in o and oracle_batch([(1406, [tagged, as_capset(o["reread"])])])[0]
-        return not (ok and ok2)
-    if job["op"] == "dfxp_write":
-        got = [[l, cues] for l, cues in o["divs"]]
-        ok = oracle_batch([(1404, [job["force"] or "", start_text(job["cs"]), got])])[0]
-        return not ok or "reread" not in o or as_capset(o["reread"]) != got
-    if job["op"] == "vtt_write":
-        ok = oracle_batch([(1410, [opt(job.get("lang")), start_text(job["cs"]), o["cues"]])])[0]
-        return not ok
-    if job["op"] in ("sami_read", "dfxp_read"):
-        # the abstract input is not stored in the job: re-derive by comparing against a second read
-        return True
-    return True
+    judge(acc, cfg, [(tag, job, reqs, info)], [o], models)
+    v = acc.res["violations"]
+    return bool(v), (v[0]["what"] if v else "the property oracle accepts the observation")[:600]
